@@ -81,6 +81,16 @@ MUT = {
     "    if isinstance(value, tuple) and len(value) == 2:\n        m = dt.MeasuredValue(value[0], 0, **kwargs)\n        m.error = value[1]\n        return m\n"),
  "c17-value-setter-fix-reverted": ("C17", D, "        self._value = float(value)  # stored as a float, as the constructor does\n",
                                     "        self._value = value\n"),
+ # ---------------- C04 (argument types)
+ "c04-corr-bound-only-for-floats": ("C04", D,
+    "        if corr > 1 or corr < -1:\n            raise ValueError(\"The correlation factor: {} is non-physical\".format(corr))\n",
+    "        if isinstance(corr, float) and (corr > 1 or corr < -1):\n            raise ValueError(\"The correlation factor: {} is non-physical\".format(corr))\n"),
+ "c04-cov-none-test-by-truthiness": ("C04", D,
+    "        if cov is None:\n            raise IllegalArgumentError(\n                \"The covariance is not provided, and cannot be calculated!\")\n\n        corr = cov / (self.std * other.std)",
+    "        if not cov and not isinstance(cov, float):\n            raise IllegalArgumentError(\n                \"The covariance is not provided, and cannot be calculated!\")\n\n        corr = cov / (self.std * other.std)"),
+ "c04-error-setter-rejects-numpy-ints": ("C04", D,
+    "        if not isinstance(error, Real):\n            raise TypeError(\"Cannot assign a {} to the error!\".format(type(error).__name__))\n        if error < 0:\n            raise ValueError(\"The error must be a positive real number!\")\n        self._error = error\n",
+    "        if not isinstance(error, (int, float)):\n            raise TypeError(\"Cannot assign a {} to the error!\".format(type(error).__name__))\n        if error < 0:\n            raise ValueError(\"The error must be a positive real number!\")\n        self._error = error\n"),
  # ---------------- C12 / C13
  "c13-power-printer-fix-reverted": ("C08", UN,
     "    if not isinstance(power, Rational):\n        power = float(power)  # e.g. a numpy.float32 exponent, which Fraction() does not accept\n", ""),
